@@ -271,11 +271,8 @@ func (ex *Exec) pbDecode(b []Value, v Value, t types.Type) bool {
 			}
 			x := ex.joinBytes(b[pos+2 : pos+10])
 			pos += 10
-			if !known {
-				continue
-			}
-			if f.kind != "varint" {
-				return false
+			if !known || f.kind != "varint" {
+				continue // unknown field / wire-type mismatch: kept as unknown, no error
 			}
 			if pt, isPtr := f.typ.Underlying().(*types.Pointer); isPtr {
 				w, _, _ := intWidth(pt.Elem())
@@ -298,11 +295,8 @@ func (ex *Exec) pbDecode(b []Value, v Value, t types.Type) bool {
 			}
 			payload := b[pos : pos+int(n)]
 			pos += int(n)
-			if !known {
+			if !known || f.kind != "bytes" {
 				continue
-			}
-			if f.kind != "bytes" {
-				return false
 			}
 			if !ex.pbSetBytesField(s, f, payload) {
 				return false
